@@ -65,25 +65,15 @@ impl InputVariant {
         })
         .parse_attributes(&v.attrs)?;
 
-        starter.data.fields = match v.fields {
-            syn::Fields::Unit => vec![],
-            syn::Fields::Unnamed(ref fields) => {
-                let mut items = Vec::with_capacity(fields.unnamed.len());
-                for item in &fields.unnamed {
-                    items.push(InputField::from_field(item, parent)?);
-                }
-
-                items
-            }
-            syn::Fields::Named(ref fields) => {
-                let mut items = Vec::with_capacity(fields.named.len());
-                for item in &fields.named {
-                    items.push(InputField::from_field(item, parent)?);
-                }
-
-                items
-            }
-        };
+        // Like the fields of a struct, the fields of a variant are all looked at, so that
+        // every faulty one is reported and not only the first.
+        let mut errors = Error::accumulator();
+        starter.data.fields = v
+            .fields
+            .iter()
+            .filter_map(|item| errors.handle(InputField::from_field(item, parent)))
+            .collect();
+        errors.finish()?;
 
         Ok(if let Some(p) = parent {
             starter.with_inherited(p)
